@@ -23,6 +23,13 @@ def run_env(ctx, which):
     for d in rep["disagreements"]:
         ctx.disagreement(d["sig"], d["detail"], d["case"])
     ncases = sum(1 for _ in open(cases if which == "c03" else muts))
+    if which == "c03":
+        # eight goroutines (each its own client) sealing, opening and using the message wrapper at the same time
+        crep = C.run_harness_phase(ctx, ["envelopeconc", "-seed", str(ctx.seed), "-rounds", "20000" if thorough else "4000"],
+                                   "C03:process-died:concurrent", "sealing and opening from eight goroutines", timeout=1800)
+        for d in (crep or {}).get("disagreements", []):
+            if d["sig"].startswith("C03:"):
+                ctx.disagreement(d["sig"], d["detail"], d["case"])
     return mc, rep, ncases
 
 
